@@ -1419,9 +1419,9 @@ func genLatency(repo string) string {
 // genConsts: the integer constants of the sequential machines' packages (decode cost, cache geometry).
 func genConsts(repo string) string {
 	var sb strings.Builder
-	fmt.Fprintf(&sb, header, "proc/mvp1, proc/mvp2, proc/mvp3 (package-level integer constants)")
+	fmt.Fprintf(&sb, header, "proc/mvp1 … proc/mvp5 (package-level integer constants)")
 	sb.WriteString("\nnamespace Gen.Consts\n\n")
-	for _, v := range []string{"mvp1", "mvp2", "mvp3"} {
+	for _, v := range []string{"mvp1", "mvp2", "mvp3", "mvp4", "mvp5"} {
 		p := loadPkg(repo, "proc/"+v, "github.com/teivah/majorana/proc/"+v)
 		scope := p.pkg.Scope()
 		fmt.Fprintf(&sb, "namespace %s\n", v)
